@@ -18,7 +18,7 @@ P = {
         ref="DESIGN.md §3 C01"),
     "C02": dict(
         technique="MIR value-flow slices from response fields to their sources; resolved-callee identity",
-        text="Decides provenance clauses of registration: clientData type/challenge/origin/hash sources (the origin rendered as the URL's ASCII serialisation), both authenticator-data copies from one value, id/rawId from one "
+        text="Decides provenance clauses of registration: clientData type/challenge/origin/hash sources (the origin rendered as the URL's ASCII serialisation), both authenticator-data copies from one value reaching the attestation object unaltered, id/rawId from one "
              "credential id, public vs private COSE key routing, rpIdHash source, first-match algorithm choice, exactly one save. Not crypto validity.",
         ref="DESIGN.md §3 C02"),
     "C03": dict(
@@ -84,12 +84,12 @@ P = {
     "C15": dict(
         technique="panic-site / allocation-site enumeration over the decoder call closure with length-guard discharge (MIR Assert terminators, partial std functions)",
         text="Decides, for every public decoder's workspace-local call closure: each panic site is discharged by a dominating length guard, a table fact or a one-line allow row; "
-             "each allocation size derives from held data or is clamped; no absorbing element loop; no recursion. Third-party internals are trusted.",
+             "each allocation size derives from held data or is clamped; no absorbing element loop; no recursion; no other decoder calls a function with an open panic site. Third-party internals are trusted.",
         ref="DESIGN.md §3 C15"),
     "C16": dict(
         technique="frame rule (channel-keyed state only) via value-flow, constant agreement sender/receiver, sequence discipline rule",
         text="Partial: decides per-channel non-interference structurally, continuation-without-init yields nothing, header/payload constants agree on both sides and with CTAPHID, "
-             "sequence numbering discipline, full-packet writes, size refusal. Does not decide the identity of fragment∘reassemble for every length.",
+             "sequence numbering discipline, full-packet writes, size refusal, and — for each of the 65536 declared lengths — that the message of an initialisation packet is delivered by that call exactly when it fits (<= 57 bytes) and parked otherwise. Does not decide the identity of fragment∘reassemble for every length and content.",
         ref="DESIGN.md §3 C16"),
     "C17": dict(
         technique="byte-layout extraction of signature bases and response encoders vs the U2F raw-message tables; writer/reader agreement of the stored rp_id",
